@@ -183,6 +183,16 @@ def main(argv=None):
             agg["held"] += 1
 
     gen = mod.generate(tier, seed, gated=gated) if _accepts_gated(mod.generate) else mod.generate(tier, seed)
+    # the quick tier runs a fixed number of generated cases (the time budget is only a safety cap), so the amount of work
+    # -- and with it the evidence -- does not depend on the speed of the machine
+    ncases = getattr(mod, "QUICK_CASES", None) if tier == "quick" and args.budget is None else None
+    if os.environ.get("VERIF_CASES"):
+        ncases = int(os.environ["VERIF_CASES"])
+    if ncases:
+        import itertools
+
+        gen = itertools.islice(gen, ncases)
+        deadline = t_start + max(budget, getattr(mod, "QUICK_CAP", 420))
     stats = run_cases(
         modname,
         gen,
